@@ -249,6 +249,136 @@ pub async fn run_ops(ops: &[Op], tmp: &std::path::Path) -> Rep {
     rep
 }
 
+/// Worker-id part: small journals are written directly (connects, a submit, single- and
+/// multi-node task starts on chosen workers, losses with all reasons), pruned by the real journal
+/// thread with the live sets the server would pass (connected workers, the unfinished job) and
+/// restored; the id the restarted server would give to the next worker must not be mentioned
+/// anywhere in the journal it was restored from - pruned or not.
+pub fn run_worker_case(seed: u64, tmp: &std::path::Path) -> Rep {
+    use crate::sim::types::*;
+    use tako::gateway::LostWorkerReason;
+    let mut rep = Rep { violations: vec![], cov: BTreeMap::new() };
+    let mut rng = Rng::new(seed);
+    let now = chrono::Utc::now();
+    let mut events: Vec<Event> = vec![Event::at(now, EventPayload::ServerStart { server_uid: "uid".into() })];
+    let k = rng.range(2, 7) as u32;
+    let first = rng.range(1, 3) as u32;
+    let ids: Vec<u32> = (0..k).map(|i| first + i + if rng.chance(20, 100) { 1 } else { 0 } * i.min(1)).collect();
+    let mut ids: Vec<u32> = ids;
+    ids.sort_unstable();
+    ids.dedup();
+    for id in &ids {
+        let cfg = crate::sim::conv::worker_configuration(&WorkerSpec { resources: vec![ResSpec { name: "cpus".into(), kind: ResKind::Range(4) }], group: "g".into(), time_limit_s: None }, *id);
+        events.push(Event::at(now, EventPayload::WorkerConnected((*id).into(), Box::new(cfg))));
+    }
+    let n_tasks = rng.range(1, 3) as u32;
+    let req = crate::sim::conv::submit_request(
+        None,
+        None,
+        &SubmitSpec::Array {
+            ids: Some((0..n_tasks).collect()),
+            entries: None,
+            req: ReqSpec { variants: vec![VariantSpec { n_nodes: 0, min_time_s: 0, entries: vec![EntrySpec { resource: "cpus".into(), policy: Policy::Compact, amount: 10_000 }] }] },
+            attrs: TaskAttrs { prio: 0, time_limit_s: None, crash: CrashSpec::Max(5) },
+        },
+    );
+    let Ok(serialized_desc) = hyperqueue::common::serialization::Serialized::new(&req) else {
+        rep.violations.push(("H-harness".into(), "cannot serialize a submit".into()));
+        return rep;
+    };
+    events.push(Event::at(now, EventPayload::Submit { job_id: 1.into(), closed_job: true, serialized_desc }));
+    for t in 0..n_tasks {
+        if rng.chance(80, 100) {
+            let n = rng.range(1, 3.min(ids.len() as u64)) as usize;
+            let mut ws = ids.clone();
+            rng.shuffle(&mut ws);
+            ws.truncate(n);
+            ws.sort_unstable();
+            if n > 1 {
+                *rep.cov.entry("multinode_task_starts_written".into()).or_insert(0) += 1;
+            }
+            events.push(Event::at(
+                now,
+                EventPayload::TaskStarted { task_id: tako::TaskId::new(1.into(), t.into()), instance_id: 0.into(), worker_ids: ws.iter().map(|w| (*w).into()).collect(), rv_id: 0.into() },
+            ));
+        }
+    }
+    let mut live: BTreeSet<u32> = ids.iter().copied().collect();
+    for id in &ids {
+        if rng.chance(70, 100) {
+            let reason = match rng.below(5) {
+                0 => LostWorkerReason::Stopped,
+                1 => LostWorkerReason::ConnectionLost,
+                2 => LostWorkerReason::HeartbeatLost,
+                3 => LostWorkerReason::IdleTimeout,
+                _ => LostWorkerReason::TimeLimitReached,
+            };
+            live.remove(id);
+            events.push(Event::at(now, EventPayload::WorkerLost((*id).into(), reason)));
+        }
+    }
+    let mentioned = |evs: &[Event]| -> BTreeSet<u32> {
+        let mut m = BTreeSet::new();
+        for e in evs {
+            match &e.payload {
+                EventPayload::WorkerConnected(w, _) | EventPayload::WorkerLost(w, _) => {
+                    m.insert(w.as_num());
+                }
+                EventPayload::TaskStarted { worker_ids, .. } => m.extend(worker_ids.iter().map(|w| w.as_num())),
+                _ => {}
+            }
+        }
+        m
+    };
+    let path = tmp.join("workerids.journal");
+    let _ = std::fs::remove_file(&path);
+    let w = (|| -> anyhow::Result<()> {
+        let mut w = JournalWriter::create(&path)?;
+        for e in &events {
+            w.store(e.clone())?;
+        }
+        w.finish()?;
+        Ok(())
+    })();
+    if w.is_err() {
+        rep.violations.push(("H-harness".into(), "journal write failed".into()));
+        return rep;
+    }
+    for pruned in [false, true] {
+        if pruned {
+            let live_workers: Vec<u32> = live.iter().copied().collect();
+            if let Err(e) = crate::journal::prune_via_thread(&path, &[], &[1], &live_workers, &[], false) {
+                rep.violations.push(("U0-prune-failed".into(), e));
+                return rep;
+            }
+        }
+        let Ok(evs) = crate::journal::read_all(&path) else {
+            rep.violations.push(("U1-journal-malformed".into(), format!("pruned={pruned}")));
+            return rep;
+        };
+        let m = mentioned(&evs);
+        match crate::journal::restore_file(&path) {
+            Err(e) => rep.violations.push(("I0-journal-does-not-restore".into(), format!("pruned={pruned}: {e}"))),
+            Ok(r) => {
+                *rep.cov.entry("worker_id_marks_checked".into()).or_insert(0) += 1;
+                if pruned && m.len() < mentioned(&events).len() + 0 && evs.len() < events.len() {
+                    *rep.cov.entry("worker_id_marks_checked_on_pruned_journals".into()).or_insert(0) += 1;
+                }
+                let next = r.worker_id_counter + 1;
+                if let Some(max) = m.iter().max() {
+                    if next <= *max {
+                        rep.violations.push((
+                            "I2-worker-id-reuse".into(),
+                            format!("{} journal mentions workers {m:?}; after a restart the next worker gets id {next}", if pruned { "pruned" } else { "unpruned" }),
+                        ));
+                    }
+                }
+            }
+        }
+    }
+    rep
+}
+
 pub fn main(args: &[String]) -> i32 {
     let a = Args::parse(args);
     let prop = a.get("prop").unwrap_or("C11").to_string();
@@ -274,7 +404,7 @@ pub fn main(args: &[String]) -> i32 {
     let mut seen = BTreeSet::new();
     let mut samples = Vec::new();
     let mut inconclusive: BTreeMap<String, u64> = BTreeMap::new();
-    let mut regress: Vec<Vec<Op>> = Vec::new();
+    let mut regress: Vec<(Vec<Op>, Option<u64>)> = Vec::new();
     if shard == 0 {
         if let Some(dir) = a.get("regress") {
             let mut files: Vec<_> = std::fs::read_dir(dir).map(|d| d.filter_map(|e| e.ok()).map(|e| e.path()).collect()).unwrap_or_default();
@@ -285,7 +415,7 @@ pub fn main(args: &[String]) -> i32 {
                 }
                 if let Ok(v) = serde_json::from_str::<serde_json::Value>(&std::fs::read_to_string(&f).unwrap_or_default()) {
                     if let Ok(ops) = serde_json::from_value::<Vec<Op>>(v["case"]["queue_ops"].clone()) {
-                        regress.push(ops);
+                        regress.push((ops, v["case"]["worker_case_seed"].as_u64()));
                     }
                 }
             }
@@ -301,12 +431,19 @@ pub fn main(args: &[String]) -> i32 {
         if next.is_none() && only_regress {
             break;
         }
-        let ops = next.unwrap_or_else(|| gen_ops(s));
+        let replayed_worker_seed = next.as_ref().and_then(|n| n.1);
+        let worker_case = replayed_worker_seed.is_some() || (next.is_none() && i % 10 == 0);
+        let s = replayed_worker_seed.unwrap_or(s);
+        let ops = if worker_case { Vec::new() } else { next.map(|n| n.0).unwrap_or_else(|| gen_ops(s)) };
         runs += 1;
-        steps += ops.len() as u64;
+        steps += ops.len() as u64 + worker_case as u64 * 12;
         let _ = crate::panics::take();
         let local = tokio::task::LocalSet::new();
-        let r = std::panic::catch_unwind(std::panic::AssertUnwindSafe(|| local.block_on(&rt, run_ops(&ops, &tmp))));
+        let r = if worker_case {
+            std::panic::catch_unwind(std::panic::AssertUnwindSafe(|| run_worker_case(s, &tmp)))
+        } else {
+            std::panic::catch_unwind(std::panic::AssertUnwindSafe(|| local.block_on(&rt, run_ops(&ops, &tmp))))
+        };
         drop(local);
         let rep = match r {
             Ok(rep) => rep,
@@ -329,7 +466,7 @@ pub fn main(args: &[String]) -> i32 {
             violated += 1;
             for (rule, detail) in &rep.violations {
                 if seen.insert(rule.clone()) {
-                    let path = save_replay_value(&replay_dir, &prop, rule, s, &json!({"queue_ops": ops}));
+                    let path = save_replay_value(&replay_dir, &prop, rule, s, &json!({"queue_ops": ops, "worker_case_seed": if worker_case { Some(s) } else { None }}));
                     violations.push(json!({"signature": rule, "detail": detail, "seed": s, "source": "generated", "replay": path}));
                 }
             }
@@ -352,11 +489,12 @@ pub fn main(args: &[String]) -> i32 {
         "violations": violations,
         "samples": samples,
         "regress_replayed": n_regress,
-        "rule": "queue-id lab: random sequences (4-24 operations) of queue creation, queue removal (forced or not) and restarts - optionally losing the last 1-3 journal records - through the real autoalloc state, JournalWriter, StateRestorer and the re-adding of restored queues with their ids; every id issued is compared with all queue ids the journal mentions at that moment; non-trivial = an id was issued after a restart",
-        "minima": {"queue_ids_issued_after_restart": 150, "restarts_after_queue_removal": 100, "restarts_with_lost_tail": 40},
+        "rule": "queue-id lab: random sequences (4-24 operations) of queue creation, queue removal (forced or not) and restarts - optionally losing the last 1-3 journal records - through the real autoalloc state, JournalWriter, StateRestorer and the re-adding of restored queues with their ids; every id issued is compared with all queue ids the journal mentions at that moment; non-trivial = an id was issued after a restart. Every tenth case is a worker-id case: a small journal written directly (2-7 worker connects with or without id gaps, a submit, single- and multi-node task starts on chosen workers, losses with every reason) is pruned by the real journal thread with the live sets the server would pass and restored, pruned and unpruned; the next worker id must not be mentioned in the journal",
+        "minima": {"queue_ids_issued_after_restart": 150, "restarts_after_queue_removal": 100, "restarts_with_lost_tail": 40, "worker_id_marks_checked": 200, "multinode_task_starts_written": 50},
         "assumptions": [
             "queue-id lab: queues are re-added after a restart through tako/hq hooks that restate the loop in bootstrap::start_server (AutoAllocState::new(restored counter), add_queue(queue, Some(id)) per restored queue)",
-            "queue-id lab: the batch system handler is a stub (no allocation is ever submitted), so only queue events are in these journals"
+            "queue-id lab: the batch system handler is a stub (no allocation is ever submitted), so only queue events are in these journals",
+            "worker-id cases: the journals are written by the lab with real event payloads (a real serialized submit), not produced by a running server; they are journals the server can produce (a multi-node task on any of its workers, workers lost for any reason, prune afterwards)"
         ],
         "wall_s": start.elapsed().as_secs_f64(),
     });
